@@ -169,6 +169,8 @@ type Step struct {
 	R  []int    `json:"r,omitempty"`
 	B  []byte   `json:"b,omitempty"`
 	It []string `json:"it,omitempty"`
+	N  int      `json:"n,omitempty"` // > 1: the call is made N times in a row with successive arguments (bulk building)
+	V  int      `json:"v,omitempty"` // > 0: a variadic parameter receives exactly V values instead of 0..6
 }
 
 // Methods returns the exported method names of a container of this configuration.
@@ -368,8 +370,28 @@ func errClass(err error) string {
 	return s
 }
 
-// Do performs one step.
+// Do performs one step (Step.N > 1: the call is repeated with shifted raw
+// material; the result of the last call is returned).
 func (r *Runner) Do(s Step) (res Result) {
+	if s.N > 1 {
+		one := s
+		one.N = 0
+		for i := 0; i < s.N; i++ {
+			one.R = make([]int, len(s.R))
+			for j, x := range s.R {
+				one.R[j] = x + i*(17*85+17*j+1) // walks through the wide element domain
+			}
+			res = r.doOnce(one)
+			if !res.Called {
+				return res
+			}
+		}
+		return res
+	}
+	return r.doOnce(s)
+}
+
+func (r *Runner) doOnce(s Step) (res Result) {
 	m := r.v.MethodByName(s.M)
 	if !m.IsValid() {
 		return Result{Why: "no such method"}
@@ -389,6 +411,9 @@ func (r *Runner) Do(s Step) (res Result) {
 		if mt.IsVariadic() && i == mt.NumIn()-1 {
 			// 0..6 values, duplicates allowed
 			n := mod(rw.next(), 7)
+			if s.V > 0 {
+				n = s.V
+			}
 			if n == 0 {
 				res.Flags = append(res.Flags, "empty-variadic")
 			}
